@@ -708,7 +708,6 @@ func runC07(c *core.Ctx) {
 	}
 }
 
-
 // ---- R07.4 the check consults the module the watcher closes ----
 
 // accessPath resolves an expression to a path from the method receiver ("recv.f.moduleInstance"), following
